@@ -106,8 +106,16 @@ def build_cli():
     return os.path.join(CLI_TARGET, "debug")
 
 
+class Crashed(ToolError):
+    """the driver process was killed by SIGSEGV / SIGABRT / SIGBUS / SIGILL: a stack overflow or abort inside the code under test
+    (the driver's own recursion is shallow and runs clean on the unchanged tree). Data, like a panic - not SIGKILL / SIGTERM, which
+    are the environment's doing."""
+
+
 def rv(args, timeout=600):
     rc, out = sh([RV] + [str(a) for a in args], timeout=timeout)
+    if rc in (-11, -6, -7, -4, 139, 134, 135, 132):
+        raise Crashed("driver killed by signal (rc=%s): rv %s\n%s" % (rc, " ".join(map(str, args)), out[-1500:]))
     if rc != 0:
         raise ToolError("recorder failed rc=%s: %s\n%s" % (rc, " ".join(map(str, args)), out[-2000:]))
     return out
@@ -206,6 +214,16 @@ def record_and_validate(ctx, jobs, module, cfg, prop_of=None, par=8, beyond=Fals
         path = os.path.join(ctx.work, name + ".ndjson")
         try:
             rv(list(args) + ["--out", path])
+        except Crashed as ex:
+            # every event is flushed: the events written before the crash are validated as usual; if all are accepted the call that
+            # followed them (it took the process down) is the violation
+            if os.path.exists(path) and nlines(path) >= 1:
+                n = nlines(path)
+                rej, gen, dist, out = validate_trace(ctx, module, cfg, path)
+                if rej is None:
+                    rej = ("hang", json.dumps({"crash": str(ex)[:300]}))
+                return name, path, n, rej, gen, dist
+            raise
         except ToolError:
             # a panic inside an extern "C" function cannot unwind: the recorder's panic hook leaves a note naming the call
             # before the process aborts. A C-ABI call that kills the process (its native twin has returned) is data, not a tool error.
@@ -243,8 +261,8 @@ def record_and_validate(ctx, jobs, module, cfg, prop_of=None, par=8, beyond=Fals
             shutil.copy(path, rp)
             with open(rp, "a") as f:
                 f.write(json.dumps({"ev": "hang", "after_event": len(lines), "rerun": "rv " + " ".join(map(str, dict(jobs)[name]))}) + "\n")
-            msg = "recording %s: a call of the library did not return within the watchdog limit after event %d (%s); the call that follows that event in `rv %s`" % (
-                name, len(lines), lines[-1].strip()[:200], " ".join(map(str, dict(jobs)[name])))
+            msg = "recording %s: a call of the library did not return (watchdog limit, or the process was brought down: %s) after event %d (%s); the call that follows that event in `rv %s`" % (
+                name, rej[1][:160], len(lines), lines[-1].strip()[:200], " ".join(map(str, dict(jobs)[name])))
             if beyond:
                 ctx.deviations.append(msg)
             else:
@@ -361,9 +379,20 @@ def gen_and_replay(ctx, module, cfg, family, what, timeout=600, workers=1, extra
     passes = extra_replay if extra_replay and isinstance(extra_replay[0], list) else [extra_replay or []]
     res = None
     # the passes are independent processes: run them side by side
+    def one_pass(xr):
+        try:
+            return rv(["replay", family, "--in", vec] + xr, timeout=2400)
+        except Crashed as ex:
+            return ex
     with cf.ThreadPoolExecutor(max_workers=4) as ex:
-        outs = list(ex.map(lambda xr: rv(["replay", family, "--in", vec] + xr, timeout=2400), passes))
+        outs = list(ex.map(one_pass, passes))
     for k, xr in enumerate(passes):
+        if isinstance(outs[k], Crashed):
+            rp = os.path.join(ctx.replays, "crash_%s_%s%s.txt" % (cfg.replace(".cfg", ""), family, "_%d" % k if k else ""))
+            open(rp, "w").write(str(outs[k]) + "\nvectors: " + vec + "\n")
+            ctx.violation("replaying the TLC-generated %s behaviours (%s) the code under test brought the process down (stack overflow / abort): %s" % (
+                family, what, str(outs[k])[:300]), rp)
+            continue
         res = json.loads(outs[k].strip().splitlines()[-1])
         ctx.vectors += res["vectors"]
         ctx.extra.setdefault("replay_steps", 0)
